@@ -29,9 +29,15 @@ type obj struct {
 	reported uint64 // the size ArchiveStore.Open reports (normally len(body))
 }
 
+type putRec struct {
+	key  string
+	body []byte
+}
+
 type memStore struct {
 	objs     map[string]obj
-	consumed int64 // bytes pulled from readers since the last reset
+	consumed int64    // bytes pulled from readers since the last reset
+	log      []putRec // successful ArchiveStore.Put calls, in order
 }
 
 type countingReader struct {
@@ -59,6 +65,7 @@ func (s *memStore) Put(_ context.Context, o backup.PutObject) error {
 		}
 	}
 	s.objs[o.Key] = obj{append([]byte(nil), body...), uint64(len(body))}
+	s.log = append(s.log, putRec{o.Key, append([]byte(nil), body...)})
 	return nil
 }
 
@@ -138,19 +145,12 @@ func (a *arun) del(key string) {
 	a.trace = append(a.trace, vh.App("ADel", str(key)))
 }
 
-// diff prints the objects that differ from [before] as (key, body id, reported) triples.
-func (a *arun) diff(before map[string]obj) string {
-	var keys []string
-	for k, o := range a.st.objs {
-		if p, ok := before[k]; !ok || !bytes.Equal(p.body, o.body) || p.reported != o.reported {
-			keys = append(keys, k)
-		}
-	}
-	sort.Strings(keys)
-	items := make([]string, len(keys))
-	for i, k := range keys {
-		o := a.st.objs[k]
-		items[i] = "(" + str(k) + ", " + vh.N(uint64(a.intern(o.body))) + ", " + vh.N(o.reported) + ")"
+// writes prints the ArchiveStore.Put calls since [from], in order, as (key, body id, size) triples.
+func (a *arun) writes(from int) string {
+	recs := a.st.log[from:]
+	items := make([]string, len(recs))
+	for i, p := range recs {
+		items[i] = "(" + str(p.key) + ", " + vh.N(uint64(a.intern(p.body))) + ", " + vh.N(uint64(len(p.body))) + ")"
 	}
 	return vh.List(items)
 }
@@ -256,7 +256,9 @@ func pPR(q runtimebackup.PublishArchiveRequest) string {
 func (a *arun) request(id string, seed uint64, perturb int) runtimebackup.PublishArchiveRequest {
 	r := sub(seed)
 	q := runtimebackup.PublishArchiveRequest{
-		ID: id, Trigger: backup.TriggerManual, SourceClusterID: "cluster-a", SourceApplication: genName(r),
+		// (a name with invalid UTF-8 marshals to \ufffd and never loads back: PublishArchive then
+		// fails after writing manifest.json; the abstract JSON layer of the model has no such case)
+		ID: id, Trigger: backup.TriggerManual, SourceClusterID: "cluster-a", SourceApplication: strings.ToValidUTF8(genName(r), "?"),
 		StartedUnixMillis: 1785267600000, CompletedUnixMillis: 1785267603000,
 	}
 	if b := a.built[id]; b != nil {
@@ -297,13 +299,13 @@ func (a *arun) run(o op) {
 		a.build(id, o.Seed, o.A)
 	case "publish":
 		q := a.request(id, o.Seed, o.A)
-		before := a.st.clone()
+		from := len(a.st.log)
 		m, err := runtimebackup.PublishArchive(ctx, a.st, q)
 		ok := ""
 		if err == nil {
 			ok = a.manifestID(m)
 		}
-		a.trace = append(a.trace, vh.App("APublish", pPR(q), pRes(err, ok), a.diff(before)))
+		a.trace = append(a.trace, vh.App("APublish", pPR(q), pRes(err, ok), a.writes(from)))
 		a.labels = append(a.labels, fmt.Sprintf("publish%d=%s", o.A, resLabel(err)))
 	case "verify":
 		m, err := backup.VerifyPublishedArchive(ctx, a.st, id)
@@ -359,9 +361,9 @@ func (a *arun) run(o op) {
 		a.trace = append(a.trace, vh.App("ARead", str(key), vh.N(uint64(o.A)), pRes(err, ok), vh.N(uint64(a.st.consumed))))
 		a.labels = append(a.labels, "read="+resLabel(err))
 	case "ensure":
-		before := a.st.clone()
+		from := len(a.st.log)
 		m, err := backup.EnsureRepository(ctx, a.st, o.S, int64(o.A))
-		a.trace = append(a.trace, vh.App("AEnsure", str(o.S), vh.Z(int64(o.A)), pRes(err, pRM(m)), a.diff(before)))
+		a.trace = append(a.trace, vh.App("AEnsure", str(o.S), vh.Z(int64(o.A)), pRes(err, pRM(m)), a.writes(from)))
 		a.labels = append(a.labels, "ensure="+resLabel(err))
 	case "msgidx":
 		a.msgidx(o)
